@@ -22,7 +22,7 @@ type AuthHost struct {
 	ForeignAuth bool   `json:"foreign_auth,omitempty"` // token realm on auth.example instead of the registry host
 	// RealmOn (1-based, 0 = no): the token realm lives on that other registry host, behind its
 	// authenticating front end: it challenges anonymous callers with Basic and knows that host's users too
-	RealmOn int `json:"realm_on,omitempty"`
+	RealmOn     int    `json:"realm_on,omitempty"`
 	ChangeAfter int    `json:"change_after,omitempty"` // after this many requests to the host the scheme becomes NewScheme
 	NewScheme   string `json:"new_scheme,omitempty"`
 	ScopeStyle  int    `json:"scope_style,omitempty"`  // how the challenge renders the scope string
